@@ -67,6 +67,16 @@ z.add(c_cmp("ult", y, x))
 check("infeasible", z.infeasible())
 check("feasible", not k.infeasible())                                     # positive control
 
+# witness search for non-identities (cv/model.py): finds a state where a false bound fails, none where a true one holds
+from .model import find_model  # noqa: E402
+from .terms import mk_bin as _mk_bin  # noqa: E402
+check("model-finds-counterexample", find_model(Facts(), mk_alignup(x, 8) - x - 8) is not None)          # positive control
+check("model-none-for-valid-bound", find_model(Facts(), x + 7 - mk_alignup(x, 8)) is None)
+m8 = Facts()
+m8.add(c_cmp("eq", x - _mk_bin("lshr", x, const(3)).scale(8), ZERO))                                    # x is a multiple of 8
+check("model-respects-premises", find_model(m8, mk_alignup(x + 1, 8) - x - 8, want="nonzero") is None)
+check("model-premises-not-vacuous", find_model(m8, mk_alignup(x + 1, 8) - x - 7, want="nonzero") is not None)   # positive control
+
 # IR reader + interpreter on a tiny C++ function
 SRC = r'''
 #include <cstddef>
@@ -109,4 +119,4 @@ finally:
 if fails:
     print("cv selfcheck FAILED: %s" % ", ".join(fails))
     sys.exit(1)
-print("cv: tools present; core self-test passed (%d checks)" % 24)
+print("cv: tools present; core self-test passed (%d checks)" % 28)
